@@ -21,6 +21,7 @@ Proof of mechanism (bookkeeping arithmetic) + bounded stand-ins:
 from __future__ import annotations
 
 import ast
+import inspect
 import itertools
 import sys
 import time
@@ -549,10 +550,14 @@ class _PState:
 
     def fresh_read(self, where):
         """a token is read (again) at this source position: a new token, its line has not been given to any node yet"""
-        if where not in self.used:
-            return self
         s = self.copy()
         s.used = s.used - {where}
+        # everything parsed so far is OLDER than this token: a node / non-empty node list held in a local was produced before it
+        for k, v in list(s.loc.items()):
+            if v[0] == "NODE":
+                s.loc[k] = ("NODE", v[1], v[2] | {where})
+            elif v[0] == "LIST" and v[1] is not True:
+                s.loc[k] = ("LIST", v[1], (v[2] if len(v) > 2 else frozenset()) | {where})
         return s
 
     def consume(self):
@@ -626,7 +631,7 @@ class LinenoAnalysis:
         if isinstance(e, ast.Constant):
             return [(("CONST", e.value), s)]
         if isinstance(e, ast.List) and not e.elts:
-            return [(("LIST", True), s)]
+            return [(("LIST", True, frozenset()), s)]
         if isinstance(e, ast.Name):
             if e.id in s.loc:
                 return [(s.loc[e.id], s)]
@@ -656,7 +661,7 @@ class LinenoAnalysis:
             for v, s2 in self.ev(e.value, s):
                 for _, s3 in self.ev(e.slice, s2):
                     is_nodes = v[0] == "NODELIST" or (v[0] == "LIST" and isinstance(e.value, ast.Name) and self.in_node_lists(e.value.id))
-                    out.append(((("NODE", frozenset()) if is_nodes and not isinstance(e.slice, ast.Slice) else ("OTHER",)), s3))
+                    out.append(((("NODE", frozenset(), frozenset()) if is_nodes and not isinstance(e.slice, ast.Slice) else ("OTHER",)), s3))
             return out
         if isinstance(e, ast.Call):
             return self.ev_call(e, s)
@@ -738,7 +743,7 @@ class LinenoAnalysis:
 
     def node_value(self, st_):
         """the NODE value of a constructor call that ended in state st_: remembers which token reads its line (and its children's) came from"""
-        return ("NODE", self.last_line_reads.get(st_.key(), frozenset()) | self.last_arg_reads)
+        return ("NODE", self.last_line_reads.get(st_.key(), frozenset()) | self.last_arg_reads, frozenset())
 
     def use(self, call, kw, v, s, argvals=()):
         text = f"line {kw.value.lineno}: {ast.unparse(call.func)}(... lineno={ast.unparse(kw.value)})"
@@ -750,6 +755,11 @@ class LinenoAnalysis:
                 # (another branch / operand / element) and must carry the line of one of its own tokens
                 self.problems.append((kw.value.lineno, text + f": the line of the token read at source line {where[0]} was already given to an earlier node that "
                                                               "this node does not contain; a node for a later construct needs the line of its own first token"))
+            older = [a for a in argvals if a[0] == "PARAM" or (a[0] in ("NODE", "LIST") and len(a) > 2 and where in a[2])]
+            if older and not (v[0] == "LINE" and v[1] and not any(a[0] == "PARAM" for a in older)):
+                # the new node CONTAINS material parsed before the token whose line it gets: it starts earlier than that token
+                self.problems.append((kw.value.lineno, text + f": the node contains an operand parsed BEFORE the token read at source line {where[0]} whose line it "
+                                                              "gets; a node carries the line of the FIRST token of the construct it denotes"))
             s = s.copy()
             s.used = s.used | {where}
         if v[0] in ("LINEC", "LINEN", "PARAM"):
@@ -789,21 +799,21 @@ class LinenoAnalysis:
         if isinstance(f, ast.Attribute) and self.is_self(f.value):
             states = self.ev_args(e, s, has_lineno)
             if f.attr.startswith("parse") or f.attr == "subparse":
-                return [(("NODE", frozenset()), st_.consume()) for st_ in states]
+                return [(("NODE", frozenset(), frozenset()), st_.consume()) for st_ in states]
             if f.attr == "free_identifier":
-                return [(("NODE", frozenset()), st_) for st_ in states]
+                return [(("NODE", frozenset(), frozenset()), st_) for st_ in states]
             return [(("OTHER",), st_) for st_ in states]
         if has_lineno:
             # a node constructor (nodes.X(...), cls(...), nodes.Node.__init__(rv, ...))
             states = self.ev_args(e, s, True)
             return [(self.node_value(st_), st_) for st_ in states]
         if isinstance(f, ast.Attribute) and isinstance(f.value, ast.Name) and f.value.id == "nodes":
-            return [(("NODE", frozenset()), st_) for st_ in self.ev_args(e, s, False)]
+            return [(("NODE", frozenset(), frozenset()), st_) for st_ in self.ev_args(e, s, False)]
         if isinstance(f, ast.Attribute) and isinstance(f.value, ast.Name) and f.attr in ("append", "extend", "insert") and s.loc.get(f.value.id, ("",))[0] == "LIST":
             out = []
             for st_ in self.ev_args(e, s, False):
                 st_ = st_.copy()
-                st_.loc[f.value.id] = ("LIST", False if f.attr != "extend" else None)
+                st_.loc[f.value.id] = ("LIST", False if f.attr != "extend" else None, s.loc[f.value.id][2] if len(s.loc[f.value.id]) > 2 else frozenset())
                 out.append((("OTHER",), st_))
             return out
         # a call that receives the parser (an extension's parse(parser)) or a local parse helper / getattr(self, "parse_...")
@@ -817,7 +827,7 @@ class LinenoAnalysis:
         for _, s1 in (self.ev(f, s) if not isinstance(f, ast.Name) else [(None, s)]):
             states += self.ev_args(e, s1, False)
         if passes_self or (fv is not None and fv[0] == "PARSEFN"):
-            return [(("NODE", frozenset()), st_.consume()) for st_ in states]
+            return [(("NODE", frozenset(), frozenset()), st_.consume()) for st_ in states]
         if isinstance(f, ast.Name) and f.id == "getattr" and e.args and self.is_self(e.args[0]):
             return [(("PARSEFN",), st_) for st_ in states]
         if isinstance(f, ast.Name) and f.id == "isinstance":
@@ -843,6 +853,24 @@ class LinenoAnalysis:
                 s = rs[0][1] if rs else s
         return s
 
+    @staticmethod
+    def prune(s):
+        """forget facts about token reads whose value is no longer held by any local (a later use needs a fresh read, which resets them)"""
+        live = {v[-1] for v in s.loc.values() if v[0] in ("TOK", "TOKC", "LINE", "LINEC")}
+        changed = bool(s.used - live)
+        new_loc = {}
+        for k, v in s.loc.items():
+            if v[0] in ("NODE", "LIST") and len(v) > 2 and v[2] - live:
+                v = v[:2] + (frozenset(v[2] & live),)
+                changed = True
+            new_loc[k] = v
+        if not changed:
+            return s
+        s2 = s.copy()
+        s2.loc = new_loc
+        s2.used = s2.used & frozenset(live)
+        return s2
+
     def block(self, stmts, states):
         brk, cont = [], []
         for st in stmts:
@@ -852,7 +880,7 @@ class LinenoAnalysis:
                 nxt += n
                 brk += b
                 cont += c
-            states = _dedupe(nxt)
+            states = _dedupe([self.prune(x) for x in nxt])
             if len(states) > 4000:
                 raise Unsupported("parser line analysis: too many abstract states")
         return states, _dedupe(brk), _dedupe(cont)
@@ -897,7 +925,7 @@ class LinenoAnalysis:
             rounds = 0
             while work:
                 rounds += 1
-                if rounds > 200:
+                if rounds > 20000:
                     raise Unsupported("parser line analysis: loop fixpoint not reached")
                 cur = work.pop()
                 if cur.key() in seen:
@@ -1652,6 +1680,300 @@ def replay_output_lines(w):
 
 
 
+# ====================================================================================================
+# C35.emit.stmt_marked: every statement visitor line-marks before it writes code that can raise
+# ====================================================================================================
+
+
+def _marked_newline_configure(I):
+    from pyvc import emit
+    base = I.specs["CodeGenerator.newline"]
+
+    def newline_marked(I_, st, args, kwargs, node):
+        rs = base(I_, st, args, kwargs, node)
+        nd = args[1] if len(args) > 1 else kwargs.get("node")
+        if nd is not None:
+            for s2, _ in rs:
+                emit.out(s2, LineMark(nd))
+        return rs
+
+    I.specs["CodeGenerator.newline"] = newline_marked
+
+
+def _nsref_configure(I):
+    """Node.find_all(NSRef) on the statement under test: the one attribute target the node was built with"""
+    _marked_newline_configure(I)
+
+    def find_all(I_, st, args, kwargs, node):
+        h = st.get(args[0])
+        tgt = h.fields.get("target")
+        return [(st, st.alloc(HList(items=[tgt])))]
+
+    I.specs["Node.find_all"] = find_all
+
+
+def _nsref_fields(st):
+    from pyvc import emit
+    return {"target": emit.make_node(st, N.NSRef, "node.target", fields={"name": sym("nsref_name", "str"), "attr": sym("nsref_attr", "str")})}
+
+
+def _walk_marks(pieces, marked, fails):
+    from pyvc import emit
+    for p in pieces:
+        if isinstance(p, LineMark):
+            marked = True
+        elif isinstance(p, emit.Rep):
+            for alt in list(p.alternatives) + ([p.first[0]] if getattr(p, "first", None) else []):
+                _walk_marks(alt, marked, fails)
+        elif isinstance(p, emit.Hole):
+            if not marked and p.kind == "expr":
+                fails.append(f"[unmarked-expression] the expression child {p.path} is written before any newline(node) / writeline(.., node) of this statement: an error "
+                             "raised by it is attributed to the previously marked template line")
+        elif isinstance(p, str) and "raise " in p and not marked:
+            fails.append(f"[unmarked-raise] `{p.strip().splitlines()[-1][:70]}` is written before any newline(node) / writeline(.., node) of this statement")
+    return marked
+
+
+def _stmt_marked_pred(sc, tree, ph, txt):
+    if sc.outcome == "raise" and getattr(sc.value, "cls", None) is not CG.CompilerExit:
+        return []  # a compile-time failure: no code is produced (CompilerExit only ends the visit, the code written so far is kept)
+    fails = []
+    _walk_marks(sc.pieces, False, fails)
+    return sorted(set(fails))
+
+
+class StmtMarked(Task):
+    """Emission contract on one statement visitor (real source, abstract node / frame / environment, every feasible path): before the
+    visitor writes a child EXPRESSION or a `raise`, it has line-marked with a node of this statement, so the python lines that can
+    raise map to this statement's template line and not to whatever statement was marked before."""
+    kind = "emission"
+
+    def __init__(self, visitor, label="", **kw):
+        from pyvc.emitcheck import EmitTask
+        self.visitor, self.label = visitor, label
+        self.prop = PROP
+        self.name = f"C35.emit.stmt_marked.visit_{visitor}" + (f"[{label}]" if label else "")
+        kw.setdefault("configure", _marked_newline_configure)
+        self.inner = EmitTask(PROP, self.name, f"jinja2.compiler:CodeGenerator.visit_{visitor}", getattr(N, visitor), _stmt_marked_pred, mode="raw",
+                              buffers=(None, "t_buf"), **kw)
+
+    def run(self, tier, seed):
+        rs = self.inner.run(tier, seed)
+        for r in rs:
+            if r.status == "refuted":
+                cats = sorted(set(x for x in ("unmarked-expression", "unmarked-raise") if f"[{x}]" in r.detail))
+                r.witness = {"visitor": self.visitor, "label": self.label, "key": f"visit_{self.visitor}:{','.join(cats)}"}
+        return rs
+
+    def finding_key(self, res):
+        return (res.witness or {}).get("key", "")
+
+    def replay(self, w):
+        return replay_stmt_marked(w)
+
+
+STMT_MARKED_NATIVE = {
+    "With": [("x\n\n{% with a = boom() %}{{ a }}{% endwith %}", 3), ("{{ 1 }}\n{% macro m() %}\n{{ 2 }}\n{% with a = 1, b = boom() %}{% endwith %}\n{% endmacro %}{{ m() }}", 4)],
+    "EvalContextModifier": [("{{ 1 }}\n\n{% autoescape boom() %}x{% endautoescape %}", 3)],
+    "ScopedEvalContextModifier": [("{{ 1 }}\n\n{% autoescape boom() %}x{% endautoescape %}", 3)],
+    "Assign": [("{{ 1 }}\n{% set x = 5 %}\n\n{% set x.y = 1 %}", 4)],
+    "AssignBlock": [("{{ 1 }}\n{% set x = 5 %}\n\n{% set x.y %}q{% endset %}", 4)],
+    "Extends": [("{% extends 'a.html' %}\n\n\n{% extends 'b.html' %}\n", 4), ("{% if true %}{% extends 'a.html' %}{% endif %}\n\n\n\n{% extends 'b.html' %}\n", 5)],
+}
+
+
+def replay_stmt_marked(w):
+    """native: a raising expression / guard of the statement kind must be reported at the statement's own line"""
+    import shutil
+    import tempfile
+    tmpdir = tempfile.mkdtemp(prefix="c35_")
+    bad = []
+    try:
+        kinds = [w.get("visitor")] if w.get("visitor") in STMT_MARKED_NATIVE else sorted(STMT_MARKED_NATIVE)
+        for k in kinds:
+            for src, line in STMT_MARKED_NATIVE[k]:
+                got = run_case_any({"main.html": src, "a.html": "A", "b.html": "B"}, "main.html", tmpdir)
+                if got != ("main.html", line):
+                    bad.append(f"{src!r}: innermost template frame {got}, expected ('main.html', {line})")
+    finally:
+        shutil.rmtree(tmpdir, ignore_errors=True)
+    return (bool(bad), "; ".join(bad[:2]) or "errors raised by the statement's own expressions / guards are reported at its line")
+
+
+def run_case_any(files, entry, tmpdir):
+    """like run_case, for any exception type"""
+    import os
+    for name, src in files.items():
+        with open(os.path.join(tmpdir, name), "w", newline="", encoding="utf-8") as f:
+            f.write(src)
+    env = jinja2.Environment(loader=jinja2.FileSystemLoader(tmpdir), cache_size=0, extensions=["jinja2.ext.i18n"])
+    env.install_null_translations()
+    env.globals["boom"] = boom
+    try:
+        env.get_template(entry).render()
+    except Exception as ex:  # noqa
+        frames = [(os.path.basename(f.filename), f.lineno) for f in traceback.extract_tb(ex.__traceback__) if os.path.dirname(f.filename) == tmpdir]
+        return frames[-1] if frames else f"<{type(ex).__name__}: {ex}>"
+    return "<no exception>"
+
+
+def stmt_marked_tasks():
+    from contracts.emit_common import STMT
+    ts = []
+    for v in STMT:
+        if v in ("Output", "Template", "Macro", "CallBlock", "FromImport") or not hasattr(CG.CodeGenerator, f"visit_{v}"):
+            continue
+        t = StmtMarked(v)
+        if v == "For":
+            t.thorough_only = True  # 1400+ paths (about 2 CPU minutes); the quick tier runs the restricted configuration below
+        ts.append(t)
+    t = StmtMarked("For", "sync, non-recursive, unbuffered", env_fields={"is_async": False}, node_fields={"recursive": False})
+    t.inner.buffers = (None,)
+    ts.append(t)
+    ts.append(StmtMarked("Extends", "second extends, parent unknown", gen_fields={"extends_so_far": 1, "has_known_extends": False}))
+    ts.append(StmtMarked("Extends", "second extends, parent known", gen_fields={"extends_so_far": 1, "has_known_extends": True}))
+    ts.append(StmtMarked("Assign", "attribute target", node_fields=_nsref_fields, configure=_nsref_configure))
+    ts.append(StmtMarked("AssignBlock", "attribute target", node_fields=_nsref_fields, configure=_nsref_configure))
+    return ts
+
+
+
+# ====================================================================================================
+# C35.node.lineno_given: statement nodes that their visitor line-marks with are built with a line
+# ====================================================================================================
+
+
+def visitors_marking_with_node():
+    """classes X whose real visit_X passes its own node to newline(...) / writeline(.., node): such a node needs an int lineno"""
+    out = set()
+    for name, fn in vars(CG.CodeGenerator).items():
+        if not name.startswith("visit_") or not callable(fn):
+            continue
+        node, _ = extract.function_ast(fn)
+        if len(node.args.args) < 2:
+            continue
+        nd = node.args.args[1].arg
+        for n in ast.walk(node):
+            if isinstance(n, ast.Call) and isinstance(n.func, ast.Attribute) and n.func.attr in ("newline", "writeline"):
+                if any(isinstance(a, ast.Name) and a.id == nd for a in list(n.args) + [k.value for k in n.keywords]):
+                    out.add(name[len("visit_"):])
+    return out
+
+
+def node_lineno_given(task, tier, seed):
+    """table over the real jinja2.parser and jinja2.ext sources: every construction `nodes.X(...)` of a class whose visitor line-marks
+    with the node itself carries `lineno=`, or the variable it is bound to receives .set_lineno(...) / is passed to
+    nodes.Node.__init__(..., lineno=) in the same function"""
+    import jinja2.ext as EXT
+    t0 = time.time()
+    marking = visitors_marking_with_node()
+    out = []
+    n_sites = 0
+    for mod in (P, EXT):
+        tree = ast.parse(inspect.getsource(mod))
+        for fn in [n for n in ast.walk(tree) if isinstance(n, (ast.FunctionDef, ast.AsyncFunctionDef))]:
+            lined = set()
+            for n in ast.walk(fn):
+                if isinstance(n, ast.Call) and isinstance(n.func, ast.Attribute) and n.func.attr == "set_lineno" and isinstance(n.func.value, ast.Name):
+                    lined.add(n.func.value.id)
+            bound = {}
+            for n in ast.walk(fn):
+                if isinstance(n, ast.Assign) and isinstance(n.value, ast.Call):
+                    for tg in n.targets:
+                        for nm in ast.walk(tg):
+                            if isinstance(nm, ast.Name):
+                                bound[id(n.value)] = nm.id
+            bad = []
+            for n in ast.walk(fn):
+                if isinstance(n, ast.Call) and isinstance(n.func, ast.Attribute) and isinstance(n.func.value, ast.Name) and n.func.value.id == "nodes" and n.func.attr in marking:
+                    n_sites += 1
+                    if any(k.arg == "lineno" for k in n.keywords) or bound.get(id(n)) in lined:
+                        continue
+                    bad.append(f"line {n.lineno}: nodes.{n.func.attr}(...) built without a line (its visitor marks the generated code with node.lineno)")
+            if bad:
+                name = f"C35.node.lineno_given[{mod.__name__.split('.')[-1]}.{fn.name}]"
+                out.append(Res(name, "refuted", "table", time.time() - t0, "; ".join(bad[:3]), "table", {"function": f"{mod.__name__}.{fn.name}", "key": f"{fn.name}:" + ",".join(sorted({b.split(': ')[1].split('(')[0] for b in bad}))}))
+    out.append(Res("C35.node.lineno_given.sites", "discharged" if n_sites >= 10 else "error", "table", time.time() - t0,
+                   f"{n_sites} constructions of line-marking statement nodes in jinja2.parser / jinja2.ext examined; visitors that mark with their node: {sorted(marking)}", "table"))
+    return out
+
+
+def inspect_getsource(mod):
+    import inspect as _i
+    return _i.getsource(mod)
+
+
+def replay_node_lineno(w):
+    import shutil
+    import tempfile
+    tmpdir = tempfile.mkdtemp(prefix="c35_")
+    cases = [("{{ 1 }}\n\n{% trans count=boom() %}{{ count }} item{% pluralize %}{{ count }} items{% endtrans %}\n", 3),
+             ("a\n{% trans n=boom() %}{{ n }}{% endtrans %}", 2)]
+    bad = []
+    try:
+        for src, line in cases:
+            got = run_case_any({"main.html": src}, "main.html", tmpdir)
+            if got != ("main.html", line):
+                bad.append(f"{src!r}: innermost template frame {got}, expected ('main.html', {line})")
+    finally:
+        shutil.rmtree(tmpdir, ignore_errors=True)
+    return (bool(bad), "; ".join(bad[:2]) or "errors in statements built by the bundled extensions are reported at their line")
+
+
+# ====================================================================================================
+# C35.bounded.multiline_expr: expressions spanning several lines whose FIRST token raises
+# ====================================================================================================
+
+MULTILINE_EXPRS = {
+    "chain:add": "boom()\n + 1\n + 2", "chain:sub": "boom()\n - 1\n - 2", "chain:mul": "boom()\n * 1\n * 2", "chain:floordiv": "boom()\n // 1\n // 2",
+    "chain:pow": "boom()\n ** 1\n ** 2", "chain:or": "boom()\n or 1\n or 2", "chain:and": "boom()\n and 1\n and 2", "chain:condexpr": "boom() if 1\n else 2 if 1\n\n else 3",
+    "chain:tuple": "boom(),\n 1,\n 2", "chain:concat": "boom()\n ~ 1\n ~ 2", "chain:compare": "boom()\n < 1\n < 2", "single:call": "boom(\n)", "single:paren": "(boom()\n)",
+    "postfix:filter": "boom()\n | string\n | upper", "postfix:attr": "boom()\n .a\n .b", "postfix:item": "boom()\n [0]\n [1]", "postfix:test": "boom()\n is\n none",
+    "postfix:call": "boom()\n (1)\n (2)",
+}
+
+
+def multiline_expr(task, tier, seed):
+    """bounded: an output / set / if expression that spans several lines and whose first token is the raising call: the error is
+    reported at the expression's FIRST line (one python line is generated per expression, so this is the finest attribution possible)"""
+    import shutil
+    import tempfile
+    t0 = time.time()
+    tmpdir = tempfile.mkdtemp(prefix="c35_")
+    out, n, seen = [], 0, set()
+    try:
+        for key, ex in MULTILINE_EXPRS.items():
+            for pre, opener, closer, off in (("line one\n", "{{ ", " }}", 2), ("a\n\n", "x {{ 1 }} {{ ", " }} y", 3), ("", "{% macro m() -%}\n{{ ", " }}\n{%- endmacro %}{{ m() }}", 2)):
+                n += 1
+                src = pre + opener + ex + closer
+                got = run_case_any({"main.html": src}, "main.html", tmpdir)
+                if got != ("main.html", off) and key not in seen:
+                    seen.add(key)
+                    out.append(Res("C35.bounded.multiline_expr", "refuted", "native", time.time() - t0,
+                                   f"{src!r}: innermost template frame {got}, expected ('main.html', {off}) (first line of the expression, where the raising call is)", "bounded",
+                                   {"expr": key, "key": key.split(":")[0] + ":" + key.split(":")[1]}))
+    finally:
+        shutil.rmtree(tmpdir, ignore_errors=True)
+    task.stats = {"cases": n}
+    if not out:
+        out.append(Res("C35.bounded.multiline_expr", "bounded-ok", "native", time.time() - t0, f"{n} multi-line expressions are reported at their first line", "bounded"))
+    return out
+
+
+def replay_multiline(w):
+    import shutil
+    import tempfile
+    tmpdir = tempfile.mkdtemp(prefix="c35_")
+    try:
+        ex = MULTILINE_EXPRS.get(w.get("expr"), "boom()\n + 1\n + 2")
+        src = "line one\n{{ " + ex + " }}"
+        got = run_case_any({"main.html": src}, "main.html", tmpdir)
+    finally:
+        shutil.rmtree(tmpdir, ignore_errors=True)
+    return (got != ("main.html", 2), f"{src!r}: innermost template frame {got}, expected ('main.html', 2)")
+
+
+
 def codegen_tasks():
     ts = [Newline(wn, wd) for wn in (False, True) for wd in (True, False)]
     ts += [Write(True), Write(False), Writeline(True), Writeline(False)]
@@ -1665,6 +1987,14 @@ def other_tasks():
     ts.append(t)
     t = FnTask(PROP, "C35.emit.output_lines", output_lines, kind="emission", replay_fn=replay_output_lines)
     t.finding_key = parser_key
+    ts.append(t)
+    t = FnTask(PROP, "C35.node.lineno_given", node_lineno_given, kind="table", replay_fn=replay_node_lineno)
+    t.finding_key = parser_key
+    ts.append(t)
+    t = FnTask(PROP, "C35.bounded.multiline_expr", multiline_expr, kind="bounded", replay_fn=replay_multiline)
+    t.finding_key = parser_key
+    t.bound_text = ("18 expression shapes spanning 2-4 lines (binary / boolean / conditional / comparison / concat chains, tuple, call, parenthesis, filter / attribute / item / "
+                    "test / call postfix chains) whose first token is the raising call, as an output expression alone, after other outputs on the same line, and as the lone body of a macro")
     ts.append(t)
     ts.append(FnTask(PROP, "C35.codegen.private", codegen_private, kind="table", replay_fn=lambda w: replay_roundtrip(w) if w.get("task") == "roundtrip" else replay_codegen(w)))
     t = FnTask(PROP, "C35.template.lineno.roundtrip", roundtrip, kind="bounded", replay_fn=replay_roundtrip)
@@ -1710,7 +2040,7 @@ class LexerLineno(Task):
         return self.inner.replay(witness)
 
 
-TASKS = codegen_tasks() + [CorrespondingLineno()] + other_tasks() + [LexerLineno(t) for t in (_LEXER_LINENO_TASKS or [])]
+TASKS = codegen_tasks() + [CorrespondingLineno()] + other_tasks() + stmt_marked_tasks() + [LexerLineno(t) for t in (_LEXER_LINENO_TASKS or [])]
 
 META = {
     "level": "other",
